@@ -132,7 +132,7 @@ PROPS = {
                    "harness; for unbounded axes the reference search is a +-16 window around the real-number estimate, generators keep "
                    "ulp(x_max) < interval/8 so that the window is decisive (undecidable cases are counted as excluded)",
         quick=dict(cases=4000, size=60, workers=16, timeout=1800),
-        thorough=dict(cases=200000, size=60, workers=16, timeout=14400),
+        thorough=dict(cases=60000, size=60, workers=16, timeout=14400),
         rule="tape -> axis kind and parameters, 1-6 positions from classes {on coordinate i, one ulp above/below, midpoint, random between, "
              "below the first, one ulp below the first, beyond the last, far (1e9..DBL_MAX, bounded axes)}, 1-4 start/end pairs, a round-trip "
              "index. Non-trivial: a position on or within one ulp of a coordinate on an axis with a non-dyadic interval/offset (or a range/"
